@@ -5,8 +5,8 @@ import vlib
 
 META = {
     "category": "model_checking",
-    "text": "Xfr.tla transcribes the transfer sender (AXFR/IXFR sequences, any packaging into messages), XfrResponseInterpreter (check_response, process_record, the update iterator), ZoneUpdater::apply on committed+pending content and the commit-time diff capture, next to a declarative reading of a record stream after RFC 5936 2.2 / RFC 1995 4. A record is (owner, type, RDATA, TTL) with one TTL per RRset (RFC 2181 5.2); versions differ in members, in an RRset's TTL alone, or in a TTL together with losing, gaining or replacing members. TLC checks, for every old/new zone pair over a small record universe (condensed and two-step histories, differences worded RFC 1995 style and the way the zone's own difference sets word them), every packaging into up to three messages and every single message fault (drop, duplicate, swap, truncate, header corruption, wrong question, a SOA with the same serial but other RDATA) at every position, that transfers reproduce the sender's zone TTLs included, that every version a reader can see is one the stream completely described, that reported diffs applied to the old content give the new content, and that invalid streams end in an error without panic. Every explored stream is rendered with the real MessageBuilder and replayed through the real interpreter + updater on a real in-memory zone (updates, errors, diffs and walk() content with TTLs compared after every message); recorded runs of the real XfrMiddlewareSvc sender over a zone the primary edits through ZoneUpdater and through WritableZoneNode::update_rrset/remove_rrset (AXFR and IXFR from every serial, from an up-to-date and a newer client, multi-message) are validated by TLC against the model and fed back through the real receiver.",
-    "note": "Trusted: TLC, the transcription in Xfr.tla, the harness projections. Named deviations (interpreter panic on a non-XFR question type and duplicate RRs kept: repaired; commit diff not the net change, IXFR SOA chain unchecked, a TTL change lost by the commit diff: open); their cases are classified KNOWN only when the real code behaves exactly as the deviant model. Record order inside transfers is ascending in generated cases (hash order in recorded ones); the SOA's own TTL is fixed; where RFC 1995 is silent (a deleted RR whose TTL differs from the stored one) the model follows ZoneUpdater: the RRset takes the TTL of the RR mentioned last; TSIG, the client transports and the sender's batcher internals are outside the model; an IXFR answer whose first message holds only the SOA is by design read as the RFC 1995 retry signal and such packagings are excluded.",
+    "text": "Xfr.tla transcribes the transfer sender (AXFR/IXFR sequences, any packaging into messages), XfrResponseInterpreter (check_response, process_record, the update iterator), ZoneUpdater::apply on committed+pending content and the commit-time diff capture, next to a declarative reading of a record stream after RFC 5936 2.2 / RFC 1995 4. A record is (owner, type, RDATA, TTL) with one TTL per RRset (RFC 2181 5.2); versions differ in members, in an RRset's TTL alone, or in a TTL together with losing, gaining or replacing members. TLC checks, for every old/new zone pair over a small record universe (condensed and two-step histories, differences worded RFC 1995 style and the way the zone's own difference sets word them), every packaging into up to three messages and every single message fault (drop, duplicate, swap, truncate, header corruption, wrong question, a SOA with the same serial but other RDATA) at every position, that transfers reproduce the sender's zone TTLs included, that every version a reader can see is one the stream completely described, that reported diffs applied to the old content give the new content, and that invalid streams end in an error without panic. Every explored stream is rendered with the real MessageBuilder and replayed through the real interpreter + updater on a real in-memory zone (updates, errors, diffs and walk() content with TTLs compared after every message); recorded runs of the real XfrMiddlewareSvc sender over a zone the primary edits through ZoneUpdater and through WritableZoneNode::update_rrset/remove_rrset (AXFR and IXFR from every serial, from an up-to-date and a newer client, multi-message) are validated by TLC against the model and fed back through the real receiver. The client side of a transfer over the stream transport is part of the model: check_stream() and its XFRState machine (net::client::stream, multi-response requests) are transcribed (one action per record class), TLC checks on every sender stream in every packaging that the request is handed exactly the messages of the transfer, in order, and then the end - where the declarative reading of the stream (EndsAt on Denotes) and the interpreter see it - and that a stream cut short ends in an error; every generated stream (honest, cut, dropped, duplicated, swapped, truncated, corrupted SOA) is received through a real stream::Connection over an in-memory stream, and so are the real sender's recorded streams.",
+    "note": "Trusted: TLC, the transcription in Xfr.tla, the harness projections. Named deviations (interpreter panic on a non-XFR question type, duplicate RRs kept, a TTL change lost by the commit diff: repaired; commit diff not the net change, IXFR SOA chain unchecked: open); their cases are classified KNOWN only when the real code behaves exactly as the deviant model, and a recorded event is accepted when the ideal model explains it or the model with open deviations does (the smallest set needed is reported), so a tree in which an open deviation has been repaired passes. The stream client compares SOA serials only (no owner, no RDATA) and RequestMessageMulti::is_answer accepts a first AXFR response without question: transcribed as built, the end-of-transfer claim is made for the sender's streams and their prefixes; header faults and wrong questions are not replayed into the client; timeouts of the client transport are C15's. Record order inside transfers is ascending in generated cases (hash order in recorded ones); the SOA's own TTL is fixed; where RFC 1995 is silent (a deleted RR whose TTL differs from the stored one) the model follows ZoneUpdater: the RRset takes the TTL of the RR mentioned last; TSIG, the client transports and the sender's batcher internals are outside the model; an IXFR answer whose first message holds only the SOA is by design read as the RFC 1995 retry signal and such packagings are excluded.",
     "technique": "TLA+ spec (Xfr.tla) + TLC exhaustive over histories x packagings x single faults; spec->impl behaviour replay; impl->spec trace validation of the real sender and receiver",
     "design_ref": "DESIGN.md §4 C10",
 }
@@ -25,7 +25,7 @@ def _dev_env(ctx):
 def run(ctx):
     thorough = ctx.tier == "thorough"
     sfx = "_thorough" if thorough else ""
-    ctx.build("replay_xfr", "record_xfr")
+    ctx.build("replay_xfr", "record_xfr", "replay_xfrclient")
 
     # 1. the specification satisfies the property (ideal design, Dev = {})
     # part "ttl": TTLs as zone content (quick: single-message packagings incl.
@@ -41,7 +41,22 @@ def run(ctx):
         ctx.require_ok(mc, "MC_Xfr_" + part)
         if (mc.diameter or 0) < 4:
             raise vlib.ToolError("vacuity: no behaviour reached DeliverNext/Close in " + part)
+    # the stream client's end-of-transfer detection (check_stream / XFRState),
+    # stepped record by record over every scenario, packaging and record-level fault
+    # (no -coverage, see above; vacuity: the search depth - a behaviour that
+    # steps through >= 2 messages record by record - and, below, the outcomes
+    # and record classes of the generated cases)
+    mcc = ctx.tlc("MC_XfrClient", "MC_XfrClient" + sfx, workers=8, label="mc-client", timeout=3000,
+                  coverage=False)
+    ctx.require_ok(mcc, "MC_XfrClient")
+    if (mcc.diameter or 0) < 12:
+        raise vlib.ToolError("vacuity: the XFRState machine was not stepped through a multi-message stream")
     ctx.exhaustive_flags.append(True)
+    # ... and ClientEndAgrees can fail: a machine that carries an intermediate
+    # version's serial never sees the end of a two-step incremental transfer
+    cm = ctx.tlc("MC_XfrClient", "MC_XfrClient_mut", workers=4, label="mc-client-mut", count=False,
+                 coverage=False, expect_violation="ClientEndAgrees")
+    ctx.require_ok(cm, "MC_XfrClient_mut (mutated XFRState machine must violate ClientEndAgrees)")
     # ... and does not hold vacuously: with the deviations switched on TLC
     # must find a counterexample (documentation of the findings)
     dv = ctx.tlc("MC_Xfr", "MC_Xfr_dev", workers=8, label="mc-dev", count=False, coverage=False,
@@ -96,6 +111,43 @@ def run(ctx):
     if missing:
         raise vlib.ToolError("vacuity: never generated: %s" % missing)
 
+    # 2b. S->I: every explored stream is received through a real stream::Connection
+    ccases = os.path.join(ctx.work, "cases-client.ndjson")
+    gen = ctx.tlc("MC_XfrClient", "Gen_XfrClient" + sfx, workers=8, label="gen-client",
+                  coverage=False, cases_to=ccases, count=False, timeout=3000)
+    ctx.require_ok(gen, "Gen_XfrClient")
+    if gen.ncases < 1000:
+        raise vlib.ToolError("generator client produced too few cases")
+    chead = os.path.join(ctx.work, "head-client.ndjson")
+    seen = set()
+    with open(ccases) as f, open(chead, "w") as g:
+        for i, line in enumerate(f):
+            if i < 20:
+                g.write(line)
+            c = json.loads(line)
+            ci = c["in"]
+            seen.add("fault:" + ci["fault"][0])
+            seen.add("kind:" + ci["kind"] + ("" if ci["fault"][0] == "none" else "/faulted"))
+            seen.add("nmsgs:%d" % len(ci["msgs"]))
+            seen.update("out:" + o[0] for o in c["exp"]["outs"])
+            if ci["fault"][0] == "none" and ci["kind"].startswith("ixfr"):
+                nsoa = sum(1 for m in ci["msgs"] for r in m["an"] if r % 1000 >= 100)
+                seen.add("diffseqs:%d" % ((nsoa - 2) // 2))
+            if ci["honest"] and ci["fault"][0] == "drop":
+                seen.add("premature")
+    rc, out, err, _ = ctx.run_bin("replay_xfrclient", ["--selftest-perturb"], stdin_path=chead)
+    ctx.selftest("perturbed expectation is reported by replay_xfrclient", "FAIL " in out)
+    ctx.replay_cases("replay_xfrclient", ccases, label="xfr-client")
+    needc = ["fault:" + f for f in ("none", "drop", "dup", "swap", "trunc", "csoa")] + \
+            ["kind:" + k for k in ("axfr", "ixfr1", "ixfr2", "fallback", "uptodate")] + \
+            ["nmsgs:1", "nmsgs:2", "nmsgs:3", "out:ok", "out:wrong", "out:eof", "out:closed",
+             "diffseqs:1", "diffseqs:2", "premature"]
+    missing = [n for n in needc if n not in seen]
+    if missing:
+        raise vlib.ToolError("vacuity (client cases): never generated: %s" % missing)
+    for n in needc:
+        ctx.coverage_actions["client-" + n] = (1, 1)
+
     # 3. I->S: the real sender (XfrMiddlewareSvc) and receiver, validated by TLC
     n_traces = 6 if thorough else 2
     rounds = "8" if thorough else "4"
@@ -113,6 +165,19 @@ def run(ctx):
         ctx.traces += 1
         if not ok:
             ctx.violation("recorded sender/receiver run is not explained by Xfr.tla", rej)
+        # events that only the model with open deviations explains (DESIGN 2.6)
+        for k in res.tagged.get("TRACE_KNOWN", []):
+            ctx.known(k["dev"], k)
+        # vacuity guard: the real stream client saw multi-step incremental
+        # transfers (>= 2 difference sequences) in several messages, a lone SOA,
+        # and a stream whose closing SOA is not the zone's
+        def nseq(e):
+            return (sum(1 for m in e["msgs"] for r in m["an"] if r % 1000 >= 100) - 2) // 2
+        cl = [e for e in evs if e["ev"] in ("xfer", "xfer_utd", "xfer_bad")]
+        if any("client" not in e for e in cl) or \
+                not any(e["ev"] == "xfer" and e["req"] == 251 and nseq(e) >= 2 and len(e["msgs"]) >= 2 for e in cl) or \
+                not any(e["ev"] == "xfer_utd" for e in cl) or not any(e["ev"] == "xfer_bad" for e in cl):
+            raise vlib.ToolError("recorder: no multi-step IXFR / lone SOA / corrupted stream went through the stream client")
         if not any(e["ev"] == "xfer_bad" for e in evs):
             raise vlib.ToolError("no corrupted-closing-SOA stream was recorded")
         # vacuity guard: the primary's own edits changed TTLs in every way, the
@@ -134,7 +199,7 @@ def run(ctx):
             if multi == 0 or small == 0 or not any(e["ev"] == "xfer_udp" for e in evs):
                 raise vlib.ToolError("recorder produced no multi-message / UDP transfer")
             # binding self-tests: a corrupted trace must be rejected
-            for what in ("drop-record", "final-content", "final-ttl"):
+            for what in ("drop-record", "final-content", "final-ttl", "client-no-end", "client-early-end"):
                 bad = os.path.join(ctx.work, "trace-bad-%s.ndjson" % what)
                 evs2 = json.loads(json.dumps(evs))
                 for e in evs2:
@@ -144,6 +209,14 @@ def run(ctx):
                             e["msgs"][0]["anc"] -= 1
                         elif what == "final-content":
                             e["rfinal"]["recs"] = e["rfinal"]["recs"][1:]
+                        elif what == "client-no-end":
+                            # the response stream only ended when the peer closed
+                            n = len(e["msgs"])
+                            e["client"]["outs"] = e["client"]["outs"][:-1] + [["closed", n]]
+                        elif what == "client-early-end":
+                            if len(e["msgs"]) < 2:
+                                continue
+                            e["client"]["outs"] = [["ok", 1], ["eof", 1]]
                         else:
                             # the receiver ends with one RRset under another TTL
                             r = e["rfinal"]["recs"]
@@ -164,5 +237,6 @@ def run(ctx):
     ctx.assume("generated transfers list records in ascending order; recorded transfers use the real sender's (hash) order")
     ctx.assume("an IXFR answer whose first message holds only the SOA is the RFC 1995 retry/up-to-date signal; such packagings are excluded from the fidelity claim")
     ctx.assume("the caller's duty (Message::is_answer on the first message) is part of the modelled receiver; error values are compared as accept/reject")
+    ctx.assume("stream client: the peer's messages carry the ID of the request; what get_response() hands out is observed after every message with the transport run to quiescence on a paused clock (a transport still busy after the step budget is the observation 'hang'), then the peer closes; response timeouts are outside this check (C15)")
     ctx.assume("single faults only; a faulted stream that is itself a well-formed transfer of other content is judged against what that stream denotes")
     ctx.assume("'S S' answering an IXFR query is admitted both as empty AXFR-style transfer and as incremental answer without difference sequences")
